@@ -243,6 +243,13 @@ func vH_C19_open() {
 func vH_C19_keyonly() {
 	cfg := vCfgFromParams()
 	cfg.file, cfg.cache = true, 2
+	var cbs StoreCallbacks
+	if vChoose("with-neutral-callbacks", 0, vParam("withcb")) == 1 {
+		// behaviourally neutral callbacks must not make key-only paths read values
+		vTrace("neutral-callbacks")
+		cbs = vNeutralCallbacks(cbValLength | cbAlloc | cbAfterRead | cbBeforeWrite)
+		cfg.cb = &cbs
+	}
 	pre := vBuildPre(cfg)
 	cfg = pre.cfg
 	err := pre.s.Flush()
@@ -251,7 +258,7 @@ func vH_C19_keyonly() {
 	dec := vDecode(f.data, int64(len(f.data)))
 	vAssert("decodes", dec.ok)
 	if vChoose("reopen", 0, 1) == 1 {
-		s2, err := NewStore(f)
+		s2, err := NewStoreEx(f, cbs)
 		vAssert("open-ok", vAnd(err == nil, s2 != nil))
 		pre.s, pre.c = s2, s2.GetCollection(cfg.name)
 	}
